@@ -331,19 +331,25 @@ def _check_node_count(ctx, model):
     pv = ncm.members.get("post_visit")
     ok = False
     if pv is not None and pv.kind == "func":
-        body = [s for s in pv.node.body if not (isinstance(s, ast.Expr))]
-        ok = len(body) == 1 and isinstance(body[0], ast.AugAssign) \
-            and isinstance(body[0].op, ast.Add) \
-            and ast.unparse(body[0].target) == "self.count" \
-            and isinstance(body[0].value, ast.Constant) and body[0].value.value == 1
+        pss = summarize(pv.node)
+        ok = bool(pss)
+        for ps in pss:
+            ws = [e for e in ps.events if e.kind == "attrwrite"]
+            ok = ok and len(ws) == 1 and ws[0].name == "count" and \
+                ws[0].value[0] == "binop" and ws[0].value[1] == "Add" and \
+                ("const", 1) in (ws[0].value[2], ws[0].value[3]) and \
+                not ps.conds
     ctx.ob("P/NodeCountMapper/post_visit", ok, ncm.loc(),
-           "post_visit adds exactly 1" if ok else
-           "NodeCountMapper.post_visit is not 'self.count += 1'")
+           "post_visit adds exactly 1, unconditionally" if ok else
+           "NodeCountMapper.post_visit is not an unconditional 'count += 1'")
     init = ncm.members.get("__init__")
     ok = False
     if init is not None and init.kind == "func":
-        src = ast.unparse(init.node)
-        ok = "super().__init__()" in src and "self.count = 0" in src
+        for ps in summarize(init.node, node_param=False):
+            ws = {e.name: e.value for e in ps.events if e.kind == "attrwrite"}
+            base_init = any(e.kind in ("supercall", "call", "basecall")
+                            and e.name.endswith("__init__") for e in ps.events)
+            ok = ws.get("count") == ("const", 0) and base_init
     ctx.ob("P/NodeCountMapper/init", ok, ncm.loc(),
            "starts at 0 and initialises the cache" if ok else
            "NodeCountMapper.__init__ does not start at 0 / initialise the cache")
@@ -359,10 +365,18 @@ def _check_node_count(ctx, model):
     ctx.floor("NodeCountMapper (mapper, node) pairs", pairs, 30)
     # get_num_nodes
     m, fn = model.func("pymbolic.mapper.analysis:get_num_nodes")
-    src = ast.unparse(fn)
-    ok = "NodeCountMapper()" in src and src.rstrip().endswith(".count")
+    ok = False
+    for ps in summarize(fn, plain=True):
+        if ps.term != "return":
+            continue
+        fresh = ("call", "NodeCountMapper", (), ())
+        applied = any(e.kind == "call" and e.value == fresh
+                      and e.args == (("param", fn.args.args[0].arg),)
+                      for e in ps.events)
+        ok = ps.retval == ("attr", fresh, "count") and applied
     ctx.ob("P/get_num_nodes", ok, m.loc(fn), "fresh mapper, returns its count"
-           if ok else "get_num_nodes does not return a fresh mapper's count")
+           if ok else "get_num_nodes does not return a fresh mapper's count after "
+           "applying it to the expression")
 
 
 # ---------------------------------------------------------------------------
